@@ -499,6 +499,12 @@ func (x *restoreX) cursorAssign(s *ast.AssignStmt, rhs ast.Expr, g gctx) {
 		x.emit(Event{Kind: KAdvance, Expr: s.Tok.String() + " " + c.ExprStr(rhs)}, g, s.Pos())
 		return
 	}
+	// a local that holds the width of a token (`colon := token.Pos(len(token.COLON.String()))`)
+	if id, ok := ast.Unparen(rhs).(*ast.Ident); ok {
+		if def := c.singleDefExpr(id); def != nil {
+			rhs = ast.Unparen(def)
+		}
+	}
 	// token.Pos(len(<tok>.String())) | token.Pos(len(n.F)) | token.Pos(n.Length)
 	if conv, ok := rhs.(*ast.CallExpr); ok && len(conv.Args) == 1 && c.isTokenPosType(conv.Fun) {
 		arg := conv.Args[0]
@@ -800,4 +806,56 @@ func callArg0(e ast.Expr) ast.Expr {
 func (x *restoreX) isVar(e ast.Expr, obj types.Object) bool {
 	id, ok := e.(*ast.Ident)
 	return ok && obj != nil && x.c.ObjOf(id) == obj
+}
+
+// singleDefExpr: the defining expression of a local variable that is defined once (x := E) and
+// never assigned again; nil otherwise.
+func (c *Ctx) singleDefExpr(id *ast.Ident) ast.Expr {
+	obj := c.Info.Uses[id]
+	if obj == nil {
+		return nil
+	}
+	if v, ok := obj.(*types.Var); !ok || v.IsField() || v.Parent() == nil || v.Parent() == c.Pkg.Types.Scope() {
+		return nil
+	}
+	var def ast.Expr
+	n := 0
+	for _, f := range c.Pkg.Syntax {
+		if !(f.Pos() <= obj.Pos() && obj.Pos() <= f.End()) {
+			continue
+		}
+		ast.Inspect(f, func(m ast.Node) bool {
+			switch s := m.(type) {
+			case *ast.AssignStmt:
+				for i, l := range s.Lhs {
+					lid, ok := l.(*ast.Ident)
+					if !ok {
+						continue
+					}
+					if c.Info.Defs[lid] == obj || c.Info.Uses[lid] == obj {
+						n++
+						if s.Tok == token.DEFINE && len(s.Lhs) == len(s.Rhs) {
+							def = s.Rhs[i]
+						} else {
+							def = nil
+							n++
+						}
+					}
+				}
+			case *ast.IncDecStmt:
+				if lid, ok := s.X.(*ast.Ident); ok && c.Info.Uses[lid] == obj {
+					n += 2
+				}
+			case *ast.UnaryExpr:
+				if lid, ok := s.X.(*ast.Ident); ok && s.Op == token.AND && c.Info.Uses[lid] == obj {
+					n += 2
+				}
+			}
+			return true
+		})
+	}
+	if n != 1 {
+		return nil
+	}
+	return def
 }
